@@ -41,6 +41,13 @@ Definition kernel (n : nat) (indptr : list nat) (ids : list Z) (md : option (lis
            (data : list Z) : list Z * list call :=
   fold_left (kernel_body indptr ids md outs) (seq 0 n) (data, []).
 
+(* the arrays of the compressed matrix the kernel is handed; only [a_data] is ever written *)
+Record arrays := mkA { a_indptr : list nat; a_indices : list nat; a_data : list Z }.
+Definition kernel_arr (n : nat) (ids : list Z) (md : option (list Tree)) (outs : list (list Z)) (r : arrays)
+  : arrays * list call :=
+  let dc := kernel n (a_indptr r) ids md outs (a_data r) in
+  (mkA (a_indptr r) (a_indices r) (fst dc), snd dc).
+
 (* well-formed segments: n + 1 offsets, starting at 0, non-decreasing, ending at len(data) *)
 Fixpoint mono (l : list nat) : Prop :=
   match l with
@@ -100,8 +107,9 @@ Definition rankdata (rk : list Z -> list Z) (a : axis) (inplace : bool) (lay : l
   : table * result table :=
   transform_with rk a inplace lay t.
 
-(* an element-wise function *)
+(* an element-wise function, and what it means for a table: zeros are never touched *)
 Definition elementwise (g : Z -> Z) (seg : list Z) : list Z := map g seg.
+Definition guard (g : Z -> Z) (x : Z) : Z := if Z.eqb x 0 then 0%Z else g x.
 
 (* norm (table.py:3325-3328): val / float(val.sum()) per vector; exact rationals.
    The division is x / s for the sum s of the stored values (domain: non-negative values, so s > 0
@@ -127,3 +135,4 @@ Definition normalize_table (relative_abund presence_absence : bool) (a : axis) (
 
 (* number of non-zero cells *)
 Definition nnz (m : matrix) : nat := nsum (map count_nz m).
+Definition qsum (l : list Q) : Q := fold_right Qplus 0%Q l.
